@@ -234,6 +234,8 @@ def r12_2(ctx):
     # who touches the pending table / who calls the set-up wrappers
     import ast as _ast
 
+    pending_table_class(ctx)
+
     for g, n in index(repo).references("_pending"):
         if g.mod != APP:
             continue
@@ -266,6 +268,65 @@ def r12_2(ctx):
                 continue
             ctx.require(g.qual in px0.visited, f"{name}:caller:{g.short}", f"{name} is called from {g.short}, which is not part of send_packet's explored "
                         "set-up + send sequence under the request lock", func=g, node=n)
+
+
+def pending_table_class(ctx):
+    """What kind of object the pending table is.  zigpy.util.Requests is the trusted base (its ``new`` is a context manager that
+    removes the entry on every exit).  A class of the repository in its place is evaluated: for a body that ends normally, raises an
+    exception, or is cancelled (a BaseException), the entry ``new(key)`` registered must have been removed when the with-block is left."""
+    import ast as _ast
+
+    from ..px import PX
+    from ..te import ClassRef, Repo, TypeRef
+
+    repo = ctx.repo
+    init = repo.func(f"{APP}:ControllerApplication.__init__")
+    stores = [n for n in _ast.walk(init.node) if isinstance(n, _ast.Assign) and any(_ast.unparse(t) == "self._pending" for t in n.targets)]
+    ctx.anchor(stores, "ControllerApplication.__init__ creates self._pending")
+    val = stores[-1].value
+    if not isinstance(val, _ast.Call):
+        raise AnalysisError(f"self._pending = {_ast.unparse(val)}: not a constructor call")
+    ctor = repo.te.ev(val.func, repo.module(APP), APP)
+    if isinstance(ctor, TypeRef):
+        if str(ctor) != "zigpy.util.Requests":
+            raise AnalysisError(f"the pending table is a {ctor}, which is outside the modelled trusted base")
+        ctx.ok(1, "pending-table:zigpy")
+        return
+    if not isinstance(ctor, ClassRef):
+        raise AnalysisError(f"the pending table's constructor {_ast.unparse(val.func)} did not resolve")
+    src = f"""
+from {ctor.mod} import {ctor.name} as _Table
+
+
+def drive(key, how):
+    table = _Table()
+    try:
+        with table.new(key) as request:
+            if how == "exception":
+                raise ValueError()
+            if how == "cancelled":
+                raise BaseException()
+    except BaseException:
+        pass
+    return None
+"""
+    rel = "bellows/_bsa_pending_driver.py"
+    drv = Repo(repo.root, overlay={**repo.overlay, rel: src})
+    f = drv.func("bellows._bsa_pending_driver:drive")
+    for how in ("normal", "exception", "cancelled"):
+        px = PX(drv, inline=lambda g, awaited: True)
+        for p in px.explore(f, lambda: (None, {"key": ("destination", 1), "how": how})):
+            ctx.paths += 1
+            reg = [i for i, e in enumerate(p.events) if e.kind == "write" and e.what.endswith("[]") and e.args[:1] == (("destination", 1),)]
+            if not reg:
+                continue  # refused as a duplicate before anything was registered
+            gone = [i for i, e in enumerate(p.events) if i > reg[-1] and e.args[:1] == (("destination", 1),) and (
+                (e.kind == "write" and e.what.endswith("__delitem__")) or (e.kind in ("call", "write") and e.what.endswith(".pop")))]
+            ctx.require(gone and p.terminal == "return", f"pending-table:{ctor.name}.new:{how}",
+                        f"{ctor.name}.new (the pending table of send_packet): when the with-block ends by {how} the registered entry is "
+                        f"{'removed' if gone else 'still in the table'} and the driver ends with {p.terminal} {p.value!r}; bookkeeping for a request must be gone "
+                        "whatever its outcome (a left-over entry fails a later request with the same tag as a duplicate)", func=ctor.method("new"),
+                        trace=p.trace(20))
 
 
 ROLE_TX = {"indexordestination": "DEST", "nwk": "DEST", "messagetag": "TAG", "type": "TYPE", "messagetype": "TYPE", "apsframe": "APS",
